@@ -1,0 +1,59 @@
+//! Read-only accessors for verification harnesses.
+//!
+//! Compiled only with `--cfg chronotope_chrono_verif`; nothing here is part of the public API.
+
+use super::rule::{AlternateTime, TransitionRule};
+use super::TimeZone;
+use crate::{MappedLocalTime, NaiveDateTime};
+
+/// A time zone built from TZif bytes or a POSIX TZ string, with the parser's result visible.
+#[derive(Debug, Clone)]
+pub struct Zone(TimeZone);
+
+impl Zone {
+    /// Parses TZif data.
+    pub fn from_tzif(bytes: &[u8]) -> Result<Zone, String> {
+        TimeZone::from_tz_data(bytes).map(Zone).map_err(|e| format!("{:?}", e))
+    }
+
+    /// Resolves a `TZ` value the way `Local` does (file name, `:`path, POSIX rule, empty).
+    pub fn from_env_value(tz: &str) -> Result<Zone, String> {
+        TimeZone::local(Some(tz)).map(Zone).map_err(|e| format!("{:?}", e))
+    }
+
+    /// Parses a POSIX TZ rule alone (no file lookup), optionally with the RFC 8536 v3 extensions.
+    pub fn from_tz_rule(tz: &[u8], v3: bool) -> Result<Zone, String> {
+        let rule = TransitionRule::from_tz_string(tz, v3).map_err(|e| format!("{:?}", e))?;
+        let types = match &rule {
+            TransitionRule::Fixed(ltt) => vec![*ltt],
+            TransitionRule::Alternate(AlternateTime { std, dst, .. }) => vec![*std, *dst],
+        };
+        TimeZone::new(vec![], types, vec![], Some(rule)).map(Zone).map_err(|e| format!("{:?}", e))
+    }
+
+    /// Offset (seconds east), DST flag and `Debug` form of the local time type at a Unix time.
+    pub fn type_at(&self, unix: i64) -> Result<(i32, bool, String), String> {
+        self.0
+            .find_local_time_type(unix)
+            .map(|t| (t.offset(), t.is_dst(), format!("{:?}", t)))
+            .map_err(|e| format!("{:?}", e))
+    }
+
+    /// Offset (seconds east) at a Unix time.
+    pub fn offset_at(&self, unix: i64) -> Result<i32, String> {
+        self.0.find_local_time_type(unix).map(|t| t.offset()).map_err(|e| format!("{:?}", e))
+    }
+
+    /// Offsets for a wall-clock time.
+    pub fn offsets_for_local(&self, local: NaiveDateTime) -> Result<MappedLocalTime<i32>, String> {
+        self.0
+            .find_local_time_type_from_local(local)
+            .map(|r| r.map(|t| t.offset()))
+            .map_err(|e| format!("{:?}", e))
+    }
+
+    /// Structure of the zone (derived `Debug` of the private type).
+    pub fn describe(&self) -> String {
+        format!("{:?}", self.0)
+    }
+}
